@@ -560,11 +560,147 @@ def count_shapes(frames, cnt):
                 cnt["goaway-abandons-req-%s/resp-%s" % ("open" if st[x]["q"] else "closed", "open" if st[x]["p"] else "none")] += 1
 
 
+# ----------------------------------------------------------------------------------------------
+# (2f) the CONFIGURATION of the tracer's HPACK decoders and framer (seeded C15-15: decoders built with the protocol
+# default 4096 instead of an unlimited table - invisible as long as no peer ever resizes its table)
+# ----------------------------------------------------------------------------------------------
+S_HEADER_TABLE_SIZE, S_MAX_FRAME_SIZE, S_MAX_HEADER_LIST_SIZE = 1, 5, 6
+
+
+def wide_fields(tag, k, vlen=90):
+    """k distinct header fields (each a dynamic table entry of ~ vlen + 40 bytes)"""
+    return [("x-%s-%03d" % (tag, i), ("%s%03d-" % (tag, i)) * (vlen // (len(tag) + 4))) for i in range(k)]
+
+
+def table_stream(sid, name, path, qf, pf, ncont=0):
+    """a gRPC stream whose request / response HEADERS carry the given extra fields"""
+    b = base_stream(sid, name, path, ncont=(ncont, ncont, 0))
+    b[0] = b[0][:4] + (b[0][4] + qf,) + b[0][5:]
+    b[2] = b[2][:4] + (b[2][4] + pf,) + b[2][5:]
+    return b
+
+
+def table_exchanges(rng):
+    """-> [(label, frames)]: one peer announces SETTINGS_HEADER_TABLE_SIZE (above / below / at the default 4096, once
+    or twice), the other peer's encoder adopts it (its next header block opens with dynamic table size updates) and
+    fills the table with distinct fields well beyond 4096 bytes; later streams repeat the fields, so their blocks
+    are index references into the enlarged table - in both directions, at the start of the connection and between
+    two streams."""
+    out = []
+    for val in (8192, 65536, 1 << 20):
+        k = 50 if val == 8192 else 90          # 50 x ~130 = 6.5 KB; 90 x ~130 = 11.7 KB of table
+        qf, pf = wide_fields("q", k), wide_fields("p", k)
+        sq = [(RESP, SETTINGS, 0, (S_HEADER_TABLE_SIZE, val)), (REQ, SETTINGS, 1)]
+        sp = [(REQ, SETTINGS, 0, (S_HEADER_TABLE_SIZE, val)), (RESP, SETTINGS, 1)]
+        s1 = table_stream(1, "Suite/cfg/t%d-1" % val, "/svc.S/T1", qf, pf, ncont=rng.choice([0, 1]))
+        s3 = table_stream(3, "Suite/cfg/t%d-3" % val, "/svc.S/T3", qf, pf)
+        s5 = table_stream(5, "Suite/cfg/t%d-5" % val, "/svc.S/T5", list(reversed(qf)), pf[::2])
+        out.append(("table-size-%d/at-start" % val, sq + sp + s1 + s3 + s5))
+        out.append(("table-size-%d/between-streams" % val, s1 + sq + s3 + sp + s5))
+        out.append(("table-size-%d/one-direction" % val, (sq if val != 65536 else sp) + s1 + [s3[0]] + merge(rng, [s3[1:], s5])))
+    qf, pf = wide_fields("q", 40), wide_fields("p", 40)
+    # lowered to 0 and raised again before the next block (two updates in one block: RFC 7541 4.2), lowered only,
+    # and the sizes around the default
+    for label, vals in (("0-then-65536", (0, 65536)), ("100", (100,)), ("4095", (4095,)), ("4096", (4096,)), ("4097", (4097,)),
+                        ("65536-then-4097", (65536, 4097))):
+        pre = []
+        for v in vals:
+            pre += [(RESP, SETTINGS, 0, (S_HEADER_TABLE_SIZE, v)), (REQ, SETTINGS, 1),
+                    (REQ, SETTINGS, 0, (S_HEADER_TABLE_SIZE, v)), (RESP, SETTINGS, 1)]
+        s1 = table_stream(1, "Suite/cfg/s%s-1" % label, "/svc.S/U1", qf, pf)
+        s3 = table_stream(3, "Suite/cfg/s%s-3" % label, "/svc.S/U3", qf, pf)
+        out.append(("table-size-%s" % label, s1[:3] + pre + s1[3:] + s3))
+    return out
+
+
+def hp_int(prefix_bits, first, v):
+    """RFC 7541 5.1"""
+    lim = (1 << prefix_bits) - 1
+    if v < lim:
+        return bytes([first | v])
+    out = [first | lim]
+    v -= lim
+    while v >= 128:
+        out.append(v % 128 + 128)
+        v //= 128
+    out.append(v)
+    return bytes(out)
+
+
+def hp_block(updates, fields):
+    """a header block written by hand: dynamic table size updates, then every field as a literal without indexing
+    with a new name (the dynamic table stays empty: the block's meaning does not depend on the table)"""
+    b = b"".join(hp_int(5, 0x20, v) for v in updates)
+    for n, v in fields:
+        n, v = n.encode(), v.encode()
+        b += b"\x00" + hp_int(7, 0, len(n)) + n + hp_int(7, 0, len(v)) + v
+    return b
+
+
+def raw_frame(typ, flags, sid, payload):
+    return len(payload).to_bytes(3, "big") + bytes([typ, flags]) + sid.to_bytes(4, "big") + payload
+
+
+UPDATE_SIZES = [0, 1, 30, 31, 32, 4095, 4096, 4097, 8191, 8192, 8193, 65535, 65536, 65537, 1 << 20, (1 << 24) + 5,
+                (1 << 31) - 1, 1 << 31, (1 << 32) - 2, (1 << 32) - 1, 1 << 32, (1 << 32) + 1, 1 << 35]
+
+
+def update_case(name, uq, up, ut):
+    """one gRPC stream, bytes written by hand: the request block opens with the size updates uq, the response
+    header block with up, the trailers with ut.  -> (preface-less frames list for build_ops, reqb, respb, reqt, respt, lens)"""
+    fq = [(":method", "POST"), (":scheme", "http"), (":authority", "h"), (":path", "/svc.S/V"), ("content-type", GRPC),
+          ("x-test-case-name", name)]
+    fp = [(":status", "200"), ("content-type", GRPC)]
+    ft = [("grpc-status", "0")]
+    bq, bp, bt = hp_block(uq, fq), hp_block(up, fp), hp_block(ut, ft)
+    big = max(uq + up + ut + [4096])
+    # the announcement that makes the updates legal (a SETTINGS value is 32 bits; what does not fit cannot be announced)
+    ann = raw_frame(4, 0, 0, (1).to_bytes(2, "big") + min(big, (1 << 32) - 1).to_bytes(4, "big"))
+    ack = raw_frame(4, 1, 0, b"")
+    msg = envelope(0, b"abc")
+    units = [(RESP, ann), (REQ, ack), (REQ, ann), (RESP, ack),
+             (REQ, raw_frame(1, 4, 1, bq)), (REQ, raw_frame(0, 1, 1, msg)),
+             (RESP, raw_frame(1, 4, 1, bp)), (RESP, raw_frame(0, 0, 1, msg)), (RESP, raw_frame(1, 5, 1, bt))]
+    reqb = PREFACE + b"".join(u for d, u in units if d == REQ)
+    respb = b"".join(u for d, u in units if d == RESP)
+    tbl = lambda blk, fs: [blk, [[n.encode(), v.encode()] for n, v in fs]]
+    frames = [(d, RAW) for d, _ in units]
+    lens = [(d, len(u)) for d, u in units]
+    return frames, reqb, respb, [tbl(bq, fq)], [tbl(bp, fp), tbl(bt, ft)], lens
+
+
+def frame_size_exchanges(rng):
+    """-> [(label, frames)]: frames and header blocks beyond the default SETTINGS_MAX_FRAME_SIZE 16384 (the receiving
+    peer raised it), CONTINUATION chains whose total is far above 16 KiB, header values of tens of KiB"""
+    out = []
+    raise_q = [(RESP, SETTINGS, 0, (S_MAX_FRAME_SIZE, 1 << 20), (S_MAX_HEADER_LIST_SIZE, 1 << 24)), (REQ, SETTINGS, 1)]
+    raise_p = [(REQ, SETTINGS, 0, (S_MAX_FRAME_SIZE, (1 << 24) - 1)), (RESP, SETTINGS, 1)]
+    for n in (16384, 16385, 16384 + 9, 40000, 70000):
+        payload = bytes(rng.randrange(256) for _ in range(64)) * (n // 64 + 1)
+        m = envelope(0, payload[:n - 5 - 3])
+        b = base_stream(1, "Suite/cfg/d%d" % n, "/svc.S/D")
+        b[1] = (REQ, D, 1, 0, m + envelope(0, b"ab")[:3], -1)          # a DATA frame of exactly n bytes
+        b[4] = (REQ, D, 1, 1, envelope(0, b"ab")[3:], -1)
+        b[3] = (RESP, D, 1, 0, m[:4], -1)
+        b[5] = (RESP, D, 1, 0, m[4:] + envelope(1, b""), -1)           # n - 4 + 5 bytes
+        out.append(("data-frame-%d" % n, raise_q + raise_p + b))
+    for label, k, vlen, nc in (("headers-frame-40k", 30, 1300, (0, 0, 0)), ("continuation-chain-60k", 40, 1500, (3, 5, 0)),
+                               ("continuation-chain-40k/2", 30, 1300, (1, 1, 0)), ("header-value-30k", 2, 30000, (0, 2, 0))):
+        qf, pf = wide_fields("q", k, vlen), wide_fields("p", k, vlen)
+        b = base_stream(1, "Suite/cfg/h-%s" % label, "/svc.S/H", ncont=nc)
+        b[0] = b[0][:4] + (b[0][4] + qf,) + b[0][5:]
+        b[2] = b[2][:4] + (b[2][4] + pf,) + b[2][5:]
+        b[6] = b[6][:4] + (b[6][4] + wide_fields("t", 3, vlen),) + b[6][5:]
+        out.append((label, raise_q + raise_p + b + resid(base_stream(1, "Suite/cfg/h2-%s" % label, "/svc.S/H2"), 3)))
+    return out
+
+
 class C15(Prop):
     id = "C15"
     props = "C15_Props"
-    coq_files = ("Base", "C15_Model", "C15_Spec", "C15_SpecL2", "C15_SpecL3", "C15_Proofs", "C15_ProofsL2b", "C15_ProofsL3", "C15_ProofsL3b",
-                 "C15_Props")
+    coq_files = ("Base", "C15_Consts", "C15_Model", "C15_Spec", "C15_SpecL2", "C15_SpecL3", "C15_Proofs", "C15_ProofsL2b", "C15_Cfg",
+                 "C15_ProofsL3", "C15_ProofsL3b", "C15_Props")
+    consts = ("tr",)
     models = ("C15_Model",)
     packages = {"tr": "internal/tracer"}
     kinds = {"c15.conn": "tr", "c15.fuzz": "tr"}
@@ -659,10 +795,36 @@ class C15(Prop):
             alloc = int(body.split("total_alloc_delta=")[1].split()[0])
         except (IndexError, ValueError):
             raise core.HarnessError("C15 alloc probe: unreadable output %r" % body)
+        viol = self._limits_probe(ctx)
+        if viol:
+            return viol
         if alloc > (64 << 20):
             return [core.Violation("tracer allocated %d bytes for an end-stream envelope that only announced its length" % alloc,
                                    "; C15 TestVerifC15Alloc: response DATA 80 ff ff ff ff 00 on a traced gRPC stream: %s\n" % body,
                                    "no-failing-input-found")]
+        return []
+
+    def _limits_probe(self, ctx):
+        """traffic too large for case files, through the real tracer (harness: TestVerifC15Limits): DATA frames of
+        2^24-1 bytes (the largest SETTINGS_MAX_FRAME_SIZE), a 2 MiB header block in 16 KiB CONTINUATIONs / in one
+        HEADERS frame, a 9 MiB header value.  The model has no size limit anywhere, so its answer is known: exactly
+        one trace, with the whole message in both directions and the whole header value."""
+        out = os.path.join(ctx.work, "limits.out")
+        core.run_go(ctx.bin("tr"), self.packages["tr"], "/dev/null", out, timeout=300, testname="TestVerifC15Limits")
+        lines = [l.strip() for l in open(out) if l.strip()]
+        ctx.notes["limits_probe"] = lines
+        if len(lines) != 10:
+            raise core.HarnessError("C15 limits probe: %d lines instead of 10" % len(lines))
+        bad = []
+        for l in lines:
+            kv = dict(x.split("=") for x in l.split()[1:])
+            if not (kv["traces"] == "1" and kv["broken"] == "0" and kv["reqmsg"] == kv["want-msg"] == kv["respmsg"]
+                    and kv["hdr"] == kv["want-hdr"]):
+                bad.append(l)
+        if bad:
+            return [core.Violation("well-formed traffic with large frames / header blocks is not traced: " + bad[0],
+                                   "; C15 TestVerifC15Limits (one gRPC stream; expected: one trace, both messages and the header "
+                                   "value complete):\n; " + "\n; ".join(bad) + "\n", "no-failing-input-found")]
         return []
 
     # ------------------------------------------------------------------------------------------
@@ -805,6 +967,31 @@ class C15(Prop):
             for side in sides:
                 yield self._case("c15.conn", side, reqb, respb, reqt, respt,
                                  build_ops(grng, side, len(PREFACE), frames, lens, "frame", []))
+        # (2f) decoder / framer configuration: SETTINGS_HEADER_TABLE_SIZE raised / lowered by either peer and adopted by
+        # the other one's encoder (table filled far beyond 4096 bytes and referenced), dynamic table size updates
+        # around every boundary written by hand, frames and header blocks beyond 16384 bytes
+        cfg = table_exchanges(grng) + frame_size_exchanges(grng)
+        for (label, frames), (reqb, respb, reqt, respt, lens) in zip(cfg, self._synth([(PREFACE, f) for _, f in cfg])):
+            big = len(reqb) + len(respb) > 60000
+            nupd = sum(1 for blk, _ in reqt + respt if blk[:1] and 0x20 <= blk[0] < 0x40)
+            shapes["cfg/" + label.split("/")[0]] += 1
+            shapes["cfg/blocks-opening-with-a-table-size-update"] += nupd
+            if label.startswith("table-size-") and label.split("/")[0] not in ("table-size-4096",) and nupd == 0:
+                raise core.HarnessError("C15 generator: %s produced no dynamic table size update" % label)
+            for side in (0, 1):
+                for mode in (("frame",) if big else ("frame", "rand")):
+                    yield self._case("c15.conn", side, reqb, respb, reqt, respt,
+                                     build_ops(grng, side, len(PREFACE), frames, lens, mode, [[2, 0]]))
+        k = 0
+        for v in UPDATE_SIZES:
+            for where in range(4):
+                k += 1
+                uq, up, ut = (([v], [], []), ([], [v], []), ([], [], [v]), ([min(v, 17), v], [v, v], [0, v]))[where]
+                frames, reqb, respb, reqt, respt, lens = update_case("Suite/cfg/u%d-%d" % (v, where), uq, up, ut)
+                shapes["cfg/size-update-%s" % ("above-2^32-1" if v >= 1 << 32 else "above-4096" if v > 4096 else "upto-4096")] += 1
+                for side in ((0, 1) if not quick or v >= 4096 else (k % 2,)):
+                    yield self._case("c15.conn", side, reqb, respb, reqt, respt,
+                                     build_ops(grng, side, len(PREFACE), frames, lens, "frame" if k % 3 else "rand", [[2, 0]]))
         # (3) every split of a short exchange into two reads / two writes
         pre, frames = gen_exchange(random.Random(7), 2, noise=False)
         (reqb, respb, reqt, respt, lens), = self._synth([(pre, frames)])
